@@ -146,13 +146,15 @@ def main(argv=None):
         j.setdefault('params', {})
         j['check'] = prop
         j['mode'] = 'sym'
-        j.setdefault('wall_s', 120 if tier == 'quick' else 900)
+        j.setdefault('wall_s', 300 if tier == 'quick' else 1500)
     known = load_known()
     results = []
     nb = min(len(jobs), 2 * a.jobs) or 1
     batches = [jobs[i::nb] for i in range(nb)]
     with cf.ThreadPoolExecutor(max_workers=a.jobs) as pool:
-        futs = [pool.submit(run_batch, b, sum(j['wall_s'] for j in b) + 90) for b in batches]
+        # each job's wall_s is a CPU-second budget enforced inside the worker; the wall-clock kill is only a
+        # backstop against a hung process and is generous so that a loaded machine does not trip it
+        futs = [pool.submit(run_batch, b, 4 * sum(j['wall_s'] for j in b) + 600) for b in batches]
         for f in cf.as_completed(futs):
             results.extend(f.result())
     results.sort(key=lambda r: (r['job']['fn'], json.dumps(r['job']['params'], sort_keys=True)))
@@ -212,8 +214,8 @@ def main(argv=None):
         jd, f = item
         base = dict(check=prop, fn=jd['fn'], params=jd['params'], inputs=f['inputs'])
         approx = any(isinstance(v, str) and v[:1] in '~?' for v in f['inputs'].values())
-        re_ = run_job(dict(base, mode='exact', profile=False, wall_s=120), 240)
-        rf_ = run_job(dict(base, mode='float'), 240)
+        re_ = run_job(dict(base, mode='exact', profile=False, wall_s=120), 900)
+        rf_ = run_job(dict(base, mode='float'), 900)
         return item, approx, re_, rf_
     with cf.ThreadPoolExecutor(max_workers=a.jobs) as pool:
         for (jd, f), approx, rex, rfl in pool.map(replay_one, cand[:max_replays]):
@@ -257,7 +259,7 @@ def main(argv=None):
 
     def wit_one(item):
         jd, w = item
-        r = run_job(dict(check=prop, fn=jd['fn'], params=jd['params'], inputs=w['inputs'], mode='float'), 240)
+        r = run_job(dict(check=prop, fn=jd['fn'], params=jd['params'], inputs=w['inputs'], mode='float'), 900)
         return item, r
     with cf.ThreadPoolExecutor(max_workers=a.jobs) as pool:
         for (jd, w), r in pool.map(wit_one, chosen):
